@@ -33,7 +33,7 @@
 (* with 2^63): a value is a record with an id, ASCII text s, extra bytes b, a    *)
 (* repeat count r (content = (s ++ b) repeated r times) and q, its spelling as   *)
 (* a constant inside a template ("" = match data only).                          *)
-EXTENDS Integers, Sequences, FiniteSets, TLC, SequencesExt, FiniteSetsExt
+EXTENDS Integers, Sequences, FiniteSets, TLC, SequencesExt, FiniteSetsExt, ExprText
 
 \* =================================================================== values
 Val(id, s, b, r, q, x) == [id |-> id, s |-> s, b |-> b, r |-> r, q |-> q, x |-> x]
@@ -53,6 +53,31 @@ NulB    == D("bytes:NUL", "", <<0>>, 1)
 BadUtf  == D("bytes:ff-fe", "", <<255, 254>>, 1)
 MixB    == D("bytes:a-NUL-c3-LF", "a", <<0, 195, 10>>, 1)
 LongLine == D("long:ab-NUL*20000", "ab", <<0>>, 20000)
+
+\* ---- texts with multi-byte characters (ExprText: character classes, their encoding, their length in every unit).
+\* The repository's tests are ASCII, where bytes = runes = columns; these values are the ones on which the units differ,
+\* by more than any allocation slack (TextAdequate in ExprSizes), and the ones that sit on a power-of-two boundary.
+TextCore == {Txt("txt:c3*11", Rep("c3", 11), 1),                        \* 33 bytes, 11 runes, 22 columns
+             Txt("txt:m4*40", <<"m4">>, 40),                            \* 160 bytes, 40 runes, 80 UTF-16 units
+             Txt("txt:a*31-e2", Rep("a", 31) \o <<"e2">>, 1),           \* 32 runes in 33 bytes
+             Txt("txt:mix", <<"a", "e2", "c3", "m4", "cmb", "bad", "k2", "tr", "sur">>, 1)}
+TextPool == TextCore \cup
+            {Txt("txt:e2", <<"e2">>, 1), Txt("txt:c3*3", Rep("c3", 3), 1), Txt("txt:m4", <<"m4">>, 1),
+             Txt("txt:a*63-e2", Rep("a", 63) \o <<"e2">>, 1), Txt("txt:e2-a*63", <<"e2">> \o Rep("a", 63), 1),
+             Txt("txt:e2*100", <<"e2">>, 100), Txt("txt:a-cmb*40", <<"a">> \o Rep("cmb", 40), 1),
+             Txt("txt:k2*33", Rep("k2", 33), 1), Txt("txt:a-a-tr", <<"a", "a", "tr">>, 1),
+             Txt("txt:mix*300", <<"a", "e2", "c3", "m4", "cmb", "bad", "k2">>, 300),
+             Txt("txt:c3*20000", <<"c3">>, 20000)}
+\* arrays whose elements are such texts (NUL separates the elements)
+TextArrays == {Txt("txtarr:c3-e2-m4", <<"c3", "c3", "nul", "e2", "nul", "m4", "a">>, 1),
+               Txt("txtarr:m4*40", <<"m4", "nul">>, 40),
+               Txt("txtarr:c3*3*12", <<"c3", "c3", "c3", "nul">>, 12)}
+\* a text is written as a constant through a placeholder that the driver replaces by the bytes (TLA+ strings are ASCII here);
+\* the very long ones are match data only
+TVal(t) == Val(t.id, "", Enc(t.cs), t.r, IF Meas("byte", t) <= 1000 THEN "\"$$V:" \o t.id \o "$$\"" ELSE "", FALSE)
+TextVals(ts) == {TVal(t) : t \in ts}
+\* an offset or a length as an argument value
+NumVal(n) == W(ToString(n))
 
 \* ---- integers as text (the model forwards them)
 Max31 == W("2147483647")
@@ -87,7 +112,7 @@ IdxCore == {W("0"), W("1"), W("-1"), W("2"), W("3"), W("4"), W("-3"), W("-4"), M
 IdxPool == IdxCore \cup {Max31, Min31, P63, W("x"), Empty, W("1.5")}
 
 StrCore == {Empty, Blank, W("a"), V("a b c"), W("abc"), NulB, BadUtf, LongA}
-StrPool == StrCore \cup {MixB, V("  "), VQ("str:tab-nl", "\t\n", "\"\\t\\n\""), X("str:quote", "a\"b", "\"a\\\"b\""),
+StrPool == StrCore \cup TextVals(TextPool) \cup {MixB, V("  "), VQ("str:tab-nl", "\t\n", "\"\\t\\n\""), X("str:quote", "a\"b", "\"a\\\"b\""),
                          X("str:braces", "{0}", "\"\\{0\\}\""), X("str:backslash", "a\\", "\"a\\\\\""), W("%s"),
                          W("1"), W("0"), W("-1"), Max63, W("<BAD-TYPE>"), X("str:2quotes", "\"\"", "\"\"\"\"")}
 
@@ -95,7 +120,7 @@ StrPool == StrCore \cup {MixB, V("  "), VQ("str:tab-nl", "\t\n", "\"\\t\\n\""), 
 Arr(id, n)  == D(id, "7", <<0>>, n)
 ArrCore == {Empty, W("a"), D("arr:a-b-c", "a", <<0, 98, 0, 99>>, 1), D("arr:NUL", "", <<0>>, 1),
             D("arr:1-2-x--3", "1", <<0, 50, 0, 120, 0, 45, 51>>, 1), D("arr:NUL-NUL", "", <<0, 0>>, 1)}
-ArrPool == ArrCore \cup {Arr("arr:7*1000", 1000), D("arr:max63-min63-p63", "9223372036854775807", <<0>>, 1),
+ArrPool == ArrCore \cup TextVals(TextArrays) \cup {Arr("arr:7*1000", 1000), D("arr:max63-min63-p63", "9223372036854775807", <<0>>, 1),
                          D("arr:ints", "9223372036854775807", <<0, 45, 57, 50, 50, 51, 51, 55, 50, 48, 51, 54, 56, 53, 52, 55, 55, 53, 56, 48, 56,
                                                                    0, 48, 0, 57, 50, 50, 51, 51, 55, 50, 48, 51, 54, 56, 53, 52, 55, 55, 53, 56, 48, 56>>, 1),
                          D("arr:ff-NUL-long", "", <<255, 0>>, 3000), Blank, LongA}
@@ -219,7 +244,7 @@ Ben(k) ==
 
 \* values thrown at EVERY position whatever its kind - except the counting kinds, whose pools are the resource-safe ones
 Universal == {Empty, Blank, W("a"), W("0"), W("-1"), Max63, Min63, P63, W("NaN"), W("1e308"), NulB, BadUtf, MixB, LongA,
-              X("str:braces", "{0}", "\"\\{0\\}\""), W("%s")}
+              X("str:braces", "{0}", "\"\\{0\\}\""), W("%s")} \cup TextVals(TextCore)
 Counting == {"cnt", "rng"}
 \* kinds whose values are pieces of template syntax: they are only ever written as constants
 Syntactic == {"sub", "pred", "fpred", "fsub"}
@@ -329,8 +354,18 @@ Arities(f) ==
   LET lo == IF MinArgs(f) > 1 THEN MinArgs(f) - 1 ELSE 1
       hi == IF Sig[f].max = VAR THEN (IF MinArgs(f) + 2 < MaxProbe THEN MinArgs(f) + 2 ELSE MaxProbe) ELSE Sig[f].max + 1
   IN lo..hi
-ArityOK(f, n) == n >= MinArgs(f) /\ n <= Sig[f].max
+ArityOK(f, n) == n >= MinArgs(f) /\ (Sig[f].max = VAR \/ n <= Sig[f].max)
 GoodArities(f) == {n \in Arities(f) : ArityOK(f, n)}
+(* ... and, one call per count, far beyond: a helper without an upper limit is   *)
+(* called with every count up to 9 and on both sides of the powers of two up to   *)
+(* 257 (thorough: 4097) - whatever fixed-size staging an implementation might     *)
+(* use is exceeded (ArityAdequate in ExprSizes); a helper with a limit sees a few *)
+(* counts far above it (the compile error path).                                  *)
+Variadic == {f \in FuncNames : Sig[f].max = VAR}
+WideArities(f, thorough) ==
+  IF f \in Variadic THEN {n \in (1..9) \cup BigArities(thorough) : n \notin Arities(f) /\ n >= MinArgs(f)}
+  ELSE {n \in {9, 17, 65, 257} : n > Sig[f].max + 1}
+ProbedArities(f, thorough) == Arities(f) \cup WideArities(f, thorough)
 
 \* =================================================================== resource exclusion
 (* Magnitude class of an integer written as text: 0 zero, 1 |v| <= 1000,          *)
@@ -423,8 +458,8 @@ Mutations(ts) ==
   \cup {SwapTok(ts, i) : i \in 1..(Len(ts) - 1)}
   \cup {ts \o <<"\\">>}
 
-\* raw templates: every byte string over this alphabet ( { } \ " blank a 1 ! NUL 0xff 0xc3 )
-RawAlphabet == {123, 125, 92, 34, 32, 97, 49, 33, 0, 255, 195}
+\* raw templates: every byte string over this alphabet ( { } \ " blank a 1 ! NUL 0xff 0xc3 0xa9 )
+RawAlphabet == {123, 125, 92, 34, 32, 97, 49, 33, 0, 255, 195, 169}     \* (195 169 is a valid two-byte letter)
 RECURSIVE RawStrings(_)
 RawStrings(n) == IF n = 0 THEN {<<>>} ELSE {Append(s, c) : s \in RawStrings(n - 1), c \in RawAlphabet}
 
